@@ -20,6 +20,48 @@ def due_fact(E, path, now, expiry):
     return cmp_fact(E, path.facts, 'Ge', now, expiry)
 
 
+def key_stability(R, E, F, m, paths):
+    """R7: the deadline is the key the heap is ordered by; it is written only while the entry is NOT in the heap (a
+    key changed in place keeps its order against the parent at best, never against its children, and peek_min stops
+    being the minimum).  Per path: membership of the node at the moment of the write = linked(entry state) adjusted
+    by the heap operations on that node before the write.  returns #writes seen"""
+    from specs import TYPESTATE
+    tab = TYPESTATE[STATE]['waiters']
+    n = 0
+    for path in paths:
+        for i, e in enumerate(path.events):
+            if e['k'] not in ('write', 'replace') or not e.get('loc') or not loc_endswith(e['loc'], 'expiry'):
+                continue
+            root = e['loc'][:1]
+            if root[0][0] not in ('P', 'tok') or root == (('P', 'self'),):
+                continue
+            n += 1
+            if root[0][0] == 'tok':
+                member = {1}     # a node obtained from the heap is in it
+            else:
+                k0 = path.facts.get(('discr', ('init', root + ('data', 'state'))))
+                vs = list(tab)
+                if k0 and k0[0] == 'eq':
+                    vs = [k0[1]]
+                elif k0:
+                    vs = [v for v in vs if v not in k0[1]]
+                member = set(1 if tab[v] else 0 for v in vs)
+            for q in path.events[:i]:
+                if q['k'] == 'qop' and q.get('node') is not None and q['node'][:1] == root:
+                    if q['op'] in ('insert', 'add_front'):
+                        member = {1}
+                    elif q['op'] in ('remove', 'remove_first', 'remove_last'):
+                        member = {0}
+            if member == {0}:
+                R.ok('C15.R7', '%s|deadline written while the entry is outside the heap|%s' % (m['path'], path_cond(E, path)))
+            else:
+                R.fail('C15.R7', [m['path'], 'deadline-written-while-queued'],
+                       '%s changes the deadline of an entry that is (or may be) in the heap at that moment: heap order '
+                       'is not re-established, so peek_min / check_expirations can miss due timers [%s]'
+                       % (m['path'], path_cond(E, path)), where(F, e), {'trace': trace_summary(path)})
+    return n
+
+
 def run(C, R):
     R.explanation = ('R1 never early: Expired is written, and Ready returned for an unregistered future, only on MIR '
                      'paths carrying ge(now, expiry) == true where `now` is the result of Clock::now() on that path '
@@ -47,11 +89,13 @@ def run(C, R):
         R.floor('C15.W wrapper-paths[%s]' % cfg, wrapper_discipline(C, R, cfg, ['timer::timer::TimerState'], 'C15.W'), 2)
         F.adt(STATE)
         nexp = 0
+        nkey = 0
         # R1 + R2
         for m in entry_methods(F, CG, STATE):
             paths = E.run(m['path'])
             R.add_paths(m['path'], len(paths))
             check_typestate(R, E, F, roles, STATE, m, paths, 'C15.R6')
+            nkey += key_stability(R, E, F, m, paths)
             for path in paths:
                 if path.exit != 'return':
                     continue
@@ -160,6 +204,26 @@ def run(C, R):
             if m.get('name') == 'try_wait':
                 w4_pending_stores_waker(R, E, F, m, paths, 'C15.R1w')
         R.floor('C15.R1 Expired-writes[%s]' % cfg, nexp, 2)
+        # ... and nobody outside the transitions writes it at all (a future that re-arms itself by storing a new
+        # deadline into its own node, without the lock, changes the key of an entry that may be queued)
+        from rl import state_layer
+        layer = state_layer(F, CG, [STATE])
+        trans = set(x['path'] for x in entry_methods(F, CG, STATE))
+        for fn in F.raw['fns']:
+            if fn['kind'] == 'closure' or fn['path'] in layer or fn['path'] in trans:
+                continue
+            if not fn['path'].lstrip('<').startswith('timer::timer'):
+                continue
+            for path in E.run(fn['path']):
+                for e in path.events:
+                    if e['k'] in ('write', 'replace') and e.get('loc') and loc_endswith(e['loc'], 'expiry') \
+                            and e['loc'][0][0] == 'P' and e.get('fn') not in layer:
+                        R.fail('C15.R7', [fn['path'], 'deadline-written-outside-the-transitions'],
+                               '%s stores a deadline into a queue entry outside the timer\'s lock-protected '
+                               'transitions' % fn['path'], where(F, e), {'trace': trace_summary(path)})
+                        break
+        R.observe('C15.R7: %d write(s) of a queue entry\'s deadline inside the transitions [%s] (today the deadline is '
+                  'fixed at construction; the rule is exercised by the selftest mutant seed-timer-reset-in-place)' % (nkey, cfg))
         w4_helper(R, E, F, 'C15.R1h')
         # R3
         ne = F.one_fn(impl_adt=STATE, name='next_expiration')
